@@ -58,6 +58,11 @@ type Config struct {
 	BadEpoch map[uint64]bool
 	// VerifyCalls counts type-level Verify invocations (probe).
 	VerifyCalls int
+	// DecoderPanics: UnmarshalBinary panics on a poisoned first byte instead of returning an error
+	// (C11 quantifies over decoders that panic; nobody else does, and arbitrary stored bytes -
+	// e.g. a height-index value read through a colliding hash key - must not take the process down
+	// because of the harness's own decoder)
+	DecoderPanics bool
 }
 
 var Cfg = Config{TrustRange: ^uint64(0)}
@@ -201,7 +206,10 @@ func (h *H) MarshalBinary() ([]byte, error) {
 
 func (h *H) UnmarshalBinary(d []byte) error {
 	if len(d) > 0 && d[0] == PanicMagic {
-		panic("simhdr: decoder panic on poisoned payload")
+		if Cfg.DecoderPanics {
+			panic("simhdr: decoder panic on poisoned payload")
+		}
+		return errors.New("simhdr: poisoned payload")
 	}
 	r := bytes.NewReader(d)
 	rd := func(n int) ([]byte, error) {
